@@ -88,7 +88,10 @@ class MidiFile(object):
                 duration = float(deltatime) / (ticks_per_beat * 4.0)
                 if duration != 0.0:
                     duration = 1.0 / duration
-                    if len(b.bar) > 0:
+                    if len(b.bar) == 0 and len(t.bars) == 0:
+                        # time passes before the first entry: the track starts with a rest
+                        b.place_rest(duration)
+                    elif len(b.bar) > 0:
                         current_length = b.bar[-1][1]
                         b.bar[-1][1] = duration
                         if current_length - duration != 0:
